@@ -7,3 +7,9 @@ pub(crate) mod c40 {
     use super::super::*;
     include!(concat!(env!("LIBP2P_VERIF"), "/units/C40/bucket_index.rs"));
 }
+
+pub(crate) mod c38 {
+    #[allow(unused_imports)]
+    use super::super::*;
+    include!(concat!(env!("LIBP2P_VERIF"), "/units/C38/closest.rs"));
+}
